@@ -23,12 +23,14 @@ pub enum Sym {
     Psh(u32),
     Fin(u32),
     SynAck(u32),
+    /// local operation: the user of the stream closes it (close_with_error) while no read is in progress
+    Close(u32),
 }
 
 impl Sym {
     fn id(&self) -> u32 {
         match self {
-            Sym::Syn(i) | Sym::Psh(i) | Sym::Fin(i) | Sym::SynAck(i) => *i,
+            Sym::Syn(i) | Sym::Psh(i) | Sym::Fin(i) | Sym::SynAck(i) | Sym::Close(i) => *i,
         }
     }
     fn short(&self) -> String {
@@ -37,6 +39,7 @@ impl Sym {
             Sym::Psh(i) => format!("PSH{i}"),
             Sym::Fin(i) => format!("FIN{i}"),
             Sym::SynAck(i) => format!("SYNACK{i}"),
+            Sym::Close(i) => format!("close{i}"),
         }
     }
 }
@@ -102,6 +105,13 @@ fn server_scenario(h: Vec<Sym>, out_slot: Arc<Mutex<Option<RunObs>>>) -> Scenari
                     }
                     Sym::Fin(i) => peer.send(FIN, *i, b""),
                     Sym::SynAck(i) => peer.send(SYNACK, *i, b""),
+                    Sym::Close(i) => {
+                        for (id, st) in &live {
+                            if id == i {
+                                st.close_with_error(anytls_rs::AnyTlsError::Protocol("closed by the local user".into())).await;
+                            }
+                        }
+                    }
                 }
                 settle().await;
                 while let Ok(st) = side.streams.try_recv() {
@@ -168,6 +178,13 @@ fn client_scenario(h: Vec<Sym>, out_slot: Arc<Mutex<Option<RunObs>>>) -> Scenari
                     }
                     Sym::Fin(i) => peer.send(FIN, *i, b""),
                     Sym::SynAck(i) => peer.send(SYNACK, *i, b""),
+                    Sym::Close(i) => {
+                        for (id, st, _) in &live {
+                            if id == i {
+                                st.close_with_error(anytls_rs::AnyTlsError::Protocol("closed by the local user".into())).await;
+                            }
+                        }
+                    }
                 }
                 settle().await;
             }
@@ -212,16 +229,30 @@ fn bx(rep: &mut Report, tier: Tier) {
             vec![Sym::Psh(1), Sym::Psh(2), Sym::Psh(3), Sym::Fin(1), Sym::Fin(2), Sym::Fin(3), Sym::SynAck(1), Sym::SynAck(2), Sym::SynAck(3), Sym::Syn(1)]
         };
         let depth = if server { depth } else { depth - 1 };
+        // local operations (at most one per history; histories containing one are explored one level less deep on the server)
+        let local: Vec<Sym> = vec![Sym::Close(1), Sym::Close(2)];
+        let local_depth = if server { depth - 1 } else { depth };
         // all histories up to depth
         let mut hists: Vec<Vec<Sym>> = vec![vec![]];
         let mut frontier: Vec<Vec<Sym>> = vec![vec![]];
         for _ in 0..depth {
             let mut next = vec![];
             for h in &frontier {
+                let has_local = h.iter().any(|x| matches!(x, Sym::Close(_)));
+                if has_local && h.len() >= local_depth {
+                    continue;
+                }
                 for a in &alphabet {
                     let mut n = h.clone();
                     n.push(*a);
                     next.push(n);
+                }
+                if !has_local && h.len() < local_depth {
+                    for a in &local {
+                        let mut n = h.clone();
+                        n.push(*a);
+                        next.push(n);
+                    }
                 }
             }
             hists.extend(next.iter().cloned());
@@ -310,7 +341,7 @@ fn bx(rep: &mut Report, tier: Tier) {
                 }
             }
             // sanity on the projection base cases: data after SYN and before FIN is delivered in order
-            if server && h.iter().all(|x| x.id() == 1) {
+            if server && h.iter().all(|x| x.id() == 1) && !h.iter().any(|x| matches!(x, Sym::Close(_))) {
                 let exp = model_single(h);
                 let a = full.get(&1).cloned().unwrap_or_default();
                 if a != exp {
@@ -355,7 +386,7 @@ fn model_single(h: &[Sym]) -> Vec<StreamObs> {
                     open = false;
                 }
             }
-            Sym::SynAck(_) => {}
+            Sym::SynAck(_) | Sym::Close(_) => {}
         }
     }
     incs
